@@ -336,3 +336,113 @@ def rule_names(ctx) -> RuleResult:
     res.inst(f"{total} global-name reads examined", "count")
     res.min_instances = 10
     return res
+
+
+# ---------------------------------------------------------------------------------------------
+# R-SEQKIND (C19): a sequence that is mutated in place is not a tuple on any path that reaches the mutation.
+# The intermediate dictionaries carry their arrays under a string key ("intermediates"); some stages store a tuple there (read-only
+# consumers), others append the counts or overwrite an entry.  A small typestate: for every local name X and every slot X["k"] the set of
+# container kinds {list, tuple, ?} that may reach a statement; `X.append(..)`, `X["k"].append(..)`, `X["k"][i] = ..` with "tuple" in the
+# set is an AttributeError / TypeError inside a task.  Only *definite* tuples (display, tuple(...), a name bound to nothing else) are
+# reported; unknown producers (call results, parameters) are accepted.
+_LIST_ONLY = {"append", "extend", "insert", "pop", "remove", "sort", "reverse", "clear"}
+
+
+def rule_seqkind(ctx) -> RuleResult:
+    res = RuleResult("R-SEQKIND", "sequences mutated in place are not tuples on any path reaching the mutation", min_instances=10)
+    from ..cfg import CFG, node_defs
+    from ..dataflow import forward
+    prog = ctx.prog
+
+    def slot_of(e):
+        """X or X["k"] -> state key"""
+        if isinstance(e, ast.Name):
+            return e.id
+        if isinstance(e, ast.Subscript) and isinstance(e.value, ast.Name) and isinstance(e.slice, ast.Constant) and isinstance(e.slice.value, str):
+            return (e.value.id, e.slice.value)
+        return None
+
+    def kind(v, st) -> frozenset:
+        if isinstance(v, (ast.List, ast.ListComp)):
+            return frozenset({"list"})
+        if isinstance(v, ast.Tuple):
+            return frozenset({"tuple"})
+        if isinstance(v, ast.Call) and isinstance(v.func, ast.Name) and v.func.id in ("list", "sorted"):
+            return frozenset({"list"})
+        if isinstance(v, ast.Call) and isinstance(v.func, ast.Name) and v.func.id == "tuple":
+            return frozenset({"tuple"})
+        k = slot_of(v)
+        if k is not None and k in st:
+            return st[k]
+        if isinstance(v, ast.Subscript) and isinstance(v.slice, ast.Slice):
+            return kind(v.value, st)          # a slice keeps the container kind
+        if isinstance(v, ast.BinOp) and isinstance(v.op, ast.Add):
+            l, r = kind(v.left, st), kind(v.right, st)
+            return l if l == r else frozenset({"?"})
+        if isinstance(v, ast.IfExp):
+            return kind(v.body, st) | kind(v.orelse, st)
+        return frozenset({"?"})
+
+    sites = 0
+    for q, f in sorted(prog.funcs.items()):
+        if isinstance(f.node, ast.Lambda):
+            continue
+        muts = []
+        for n in walk_own(f.node):
+            if isinstance(n, ast.Call) and isinstance(n.func, ast.Attribute) and n.func.attr in _LIST_ONLY and slot_of(n.func.value) is not None:
+                muts.append((n, n.func.value, f".{n.func.attr}(…)"))
+            if isinstance(n, (ast.Assign, ast.AugAssign)):
+                for t in (n.targets if isinstance(n, ast.Assign) else [n.target]):
+                    if isinstance(t, ast.Subscript) and not (isinstance(t.slice, ast.Constant) and isinstance(t.slice.value, str)) and slot_of(t.value) is not None \
+                            and not isinstance(t.value, ast.Name):
+                        muts.append((n, t.value, "[i] = …"))
+        if not muts:
+            continue
+        cfg = CFG(f)
+
+        def transfer(n, st):
+            a = n.ast
+            d = dict(st)
+            defs = node_defs(n)
+            if n.kind == "stmt" and isinstance(a, (ast.Assign, ast.AnnAssign)) and a.value is not None:
+                targets = a.targets if isinstance(a, ast.Assign) else [a.target]
+                for t in targets:
+                    k = slot_of(t)
+                    if isinstance(t, ast.Name):
+                        for key in [x for x in d if isinstance(x, tuple) and x[0] == t.id]:
+                            del d[key]
+                        d[t.id] = kind(a.value, dict(st))
+                        if isinstance(a.value, ast.Dict):
+                            for kk, vv in zip(a.value.keys, a.value.values):
+                                if isinstance(kk, ast.Constant) and isinstance(kk.value, str):
+                                    d[(t.id, kk.value)] = kind(vv, dict(st))
+                        defs = defs - {t.id}
+                    elif k is not None:
+                        d[k] = kind(a.value, dict(st))
+            for v in defs:          # any other rebinding (loop target, with-as, tuple unpacking, augmented assignment): unknown
+                for key in [x for x in d if x == v or (isinstance(x, tuple) and x[0] == v)]:
+                    del d[key]
+            return frozenset(d.items())
+
+        def join(x, y):
+            dx, dy = dict(x), dict(y)
+            out = {}
+            for k in set(dx) | set(dy):
+                out[k] = dx.get(k, frozenset({"?"})) | dy.get(k, frozenset({"?"}))
+            return frozenset(out.items())
+
+        ins, _ = forward(cfg, frozenset(), transfer, join=join)
+        from ..dataflow import node_containing
+        for stmt, recv, how in muts:
+            node = node_containing(cfg, stmt if isinstance(stmt, ast.Call) else stmt)
+            if node is None:
+                continue
+            st = dict(ins.get(node.id, frozenset()))
+            ks = st.get(slot_of(recv), frozenset({"?"}))
+            sites += 1
+            res.inst(f"{q}: {norm(recv)}{how}: kinds reaching it: {sorted(ks)}", f"{q}|{norm(recv)}|{how}|{getattr(stmt, 'lineno', 0)}")
+            if "tuple" in ks:
+                res.report(f"{q}|tuple-mutated|{norm(recv)}", f.where(stmt), q,
+                           f"'{norm(recv)}{how}' mutates the sequence in place, but on some path it was bound to a tuple (kinds reaching this statement: {sorted(ks)}): "
+                           "AttributeError / TypeError when the path runs (inside a task for the combine stages)")
+    return res
